@@ -1,5 +1,8 @@
 import PbVerif.Model.Proto
 import PbVerif.Model.Kron
+import PbVerif.Model.Axes
+import PbVerif.Model.Perm
+import PbVerif.Model.Morph
 namespace PbVerif.Drv.C20
 open PbVerif PbVerif.Proto PbVerif.Kron
 
@@ -8,7 +11,44 @@ def parseMat? (s : String) : Option (List (List Rat)) :=
 def showMat (m : List (List Rat)) : String :=
   if m.isEmpty then "-" else ";".intercalate (m.map showRats)
 
+/-! individual_axes -/
+def axesArg? (s : String) : Option Axes.AxesArg :=
+  match s.splitOn "," with
+  | [a] => do some (.one (← a.toNat?))
+  | [a, b] => do some (.two (← a.toNat?) (← b.toNat?))
+  | _ => none
+/-- `none` | `dict:A` | `seq:` | `seq:A,B,…` -/
+def kwArg? {α : Type} (f : String → Option α) (s : String) : Option (Axes.KwArg α) :=
+  if s = "none" then some .none
+  else if s.startsWith "dict:" then (f (s.drop 5).toString).map .dict
+  else if s = "seq:" then some (.seq [])
+  else if s.startsWith "seq:" then (((s.drop 4).toString.splitOn ",").mapM f).map .seq
+  else none
+def showCoord : Axes.Coord → String
+  | .x => "x"
+  | .z => "z"
+/-- the 1-D method used to run the plan exactly: `Baseline(c).mor(v, half_window=hw)`, i.e. `mor` wrapped in the
+sorting layer of `_Algorithm._register` (the fitter sorts by its coordinates, fits, and restores the order) -/
+def morFit : Axes.Fit1 Nat := fun c hw v => (Perm.run1d (fun _ y _ => (Morph.mor hw y, [])) c v none).1
+
 def handle : List String → Option String
+  | ["c20.axesplan", m, n, axes, kw] => do
+      let m ← m.toNat?
+      let n ← n.toNat?
+      match Axes.individualAxesPlan "{}" (← axesArg? axes) (← kwArg? some kw) with
+      | .error _ => some "error#ValueError"
+      | .ok steps => some ("ok#" ++ ";".intercalate (steps.map fun st =>
+          s!"{st.axis}:{showCoord st.coord}:{st.kw}:{st.key}:{showNats (Axes.stepFits m n st.axis)}"))
+  | ["c20.axesrun", axes, kw, x, z, data] => do
+      let kw ← kwArg? String.toNat? kw
+      -- `{}` would mean mor's automatic half-window, which the oracle does not model
+      match kw with
+      | .none => none
+      | .seq [] => none
+      | _ =>
+        match Axes.individualAxes morFit 0 (← parseList? parseRat? x) (← parseList? parseRat? z) (← parseMat? data) (← axesArg? axes) kw with
+        | .error _ => some "error#ValueError"
+        | .ok (b, parts) => some ("ok#" ++ showMat b ++ "#" ++ "|".intercalate (parts.map fun kp => s!"{kp.1}={showMat kp.2}"))
   | ["c20.btwb", br, bc, w] => do
       let Br ← parseMat? br
       let Bc ← parseMat? bc
